@@ -36,12 +36,13 @@ var riskyFeatures = []string{
 	"switch.default-middle", "switch.group", "switch.fallthrough",
 	"dowhile.then-prefix-incdec", "collect", "counter.bump",
 	"loop.fordown", "break.in.fordown", "continue.in.fordown",
-	"loop.for-le", "counter.read-after-loop", "switch.duplicate-label",
+	"loop.for-le", "counter.read-after-loop", "switch.duplicate-label", "static.nested-block",
 }
 
 var featurePrereq = map[string][]string{
 	"static.compound-assign":     {"static.local"},
 	"static.assign":              {"static.local"},
+	"static.nested-block":        {"static.local"},
 	"break.in.while":             {"loop.while"},
 	"continue.in.while":          {"loop.while"},
 	"break.in.dowhile":           {"loop.dowhile"},
